@@ -204,11 +204,17 @@ ssize_t Net::sqWrite(SockEnt *s, const void *buf, size_t n)
 {
     Conn *c = s->conn;
     if (!c || s->kind != SockEnt::CONN || c->state != Conn::ESTABLISHED) { errno = ENOTCONN; return -1; }
-    if (c->sqRst) { errno = EPIPE; return -1; }
+    if (c->sqRst) { hist("SQWERR\t%d\tEPIPE", c->id); errno = EPIPE; return -1; }
     if (n == 0) return 0;
     if (c->peerClosed) { // peer is gone: the local kernel accepts the bytes, an RST comes back
         hist("SQWR\t%d\t%s\tlost", c->id, histBlob(buf, n).c_str());
-        at(nowUs() + connLat(c), [c] { if (!c->sqRst) { c->sqRst = true; hist("RSTBACK\t%d", c->id); } });
+        at(nowUs() + connLat(c), [c] {
+            if (c->sqRst) return;
+            c->sqRst = true; hist("RSTBACK\t%d", c->id);
+            // the peer's kernel discarded its unsent queue when it answered with the RST, and nothing is accepted after an RST: segments still in flight never arrive
+            size_t n = 0; for (auto &sg : c->p2s) n += sg.data.size();
+            if (n) { hist("P2SDROP\t%d\t%zu", c->id, n); c->p2s.clear(); c->p2sBytes = 0; }
+        });
         return (ssize_t)n;
     }
     if (c->s2pBytes >= c->window) { errno = EAGAIN; return -1; }
